@@ -164,4 +164,26 @@ def rule_select_resource(ctx):
                 ctx.check(p.outcome == 'const(0)', 'K4', 'SelectResource::%s:Prefix=>false' % m, 'prefix selectors do not select this type', 'prefix selector yields %s' % p.outcome)
 
 
-RULES = [rule_k6, rule_selection, rule_select_resource]
+def rule_delimiters(ctx):
+    """A delimiter (and an item) is written only for an item that passed the selection: one delimiter between listed items."""
+    from lib.rules import G, require_guards
+    b = ctx.body('output::OutputStream::write_next')
+    for kind in ('origin', 'router_key', 'aspa'):
+        g = G('include_%s is true' % kind, call='output::Output::include_%s' % kind, labels={'true'})
+        dels = b.calls('output::Formatter::%s_delimiter' % kind)
+        items = b.calls('output::Formatter::%s' % kind)
+        ctx.floor('K1', '%s delimiter call in write_next' % kind, len(dels), 1)
+        ctx.floor('K1', '%s item call in write_next' % kind, len(items), 1)
+        require_guards(ctx, 'K1', b, dels, [g],
+                       'a delimiter is written only in front of an item that is actually listed (otherwise a selection that '
+                       'excludes an item leaves a stray comma and the JSON/SLURM output no longer parses)')
+        require_guards(ctx, 'K1', b, items, [g], 'only selected items are written')
+        # every selected item except the first is preceded by a delimiter: the item call is reached from the true edge
+        # either through the delimiter or through the `first` flag edge
+        for it in items:
+            e, sw = g.edges(b)
+            ctx.check(bool(sw), 'K1', 'write_next:%s:selection-consulted' % kind, 'the selection is consulted per item',
+                      'write_next no longer consults include_%s' % kind, loc=it.loc())
+
+
+RULES = [rule_delimiters, rule_k6, rule_selection, rule_select_resource]
